@@ -475,7 +475,12 @@ class C18(F.Check):
         return out
 
     def kernels(self):
-        self.prelude = '#include "au/io.hh"\n#include <sstream>\n#include <string>\n' + PRELUDE
+        self.prelude = ('#include "au/io.hh"\n#include <sstream>\n#include <string>\n#include <iomanip>\n'
+                        '// formatting states under which the native twins compare the streamed text with `os << +value`\n'
+                        'static inline void c18_stream_state(std::ostream &o, int st) {\n'
+                        '  switch (st) { case 1: o << std::fixed << std::setprecision(2); break; case 2: o << std::scientific << std::setprecision(3); break;\n'
+                        '    case 3: o << std::hex << std::showbase << std::uppercase; break; case 4: o << std::showpos << std::showpoint; break; default: break; } }\n'
+                        + PRELUDE)
         D = "au::detail::"
         ks = [F.Kernel("c18_ssu", "uint64_t", [("uint64_t", "x")], "return %sstring_size_unsigned(x);" % D, family="string_size_unsigned"),
               F.Kernel("c18_ss", "uint64_t", [("int64_t", "x")], "return %sstring_size(x);" % D, family="string_size")]
@@ -547,7 +552,8 @@ class C18(F.Check):
                 ks.append(k)
                 # native-only twin used to replay a structural counterexample: really stream into a string and compare with "<number> <label>"
                 kn = F.Kernel(nm + "_native", "bool", [(r, "x")],
-                              'std::ostringstream a, b; a << make_quantity<%s>(x); b << +x << " " << "%s"; return a.str() == b.str();' % (u, lab),
+                              'for (int st = 0; st < 5; ++st) { std::ostringstream a, b; c18_stream_state(a, st); c18_stream_state(b, st); '
+                              'a << make_quantity<%s>(x); b << +x << " " << "%s"; if (a.str() != b.str()) return false; } return true;' % (u, lab),
                               key=k.key, family="stream_native_replay")
                 ks.append(kn)
                 self.stream.append((k, r, lab, False, kn.name))
@@ -555,7 +561,8 @@ class C18(F.Check):
                          key={"rep": r, "unit": "Kelvins", "label": "K", "kind": "point"}, family="stream_point", native=False)
             ks.append(k)
             kn = F.Kernel("c18_streampt_%d_native" % ri, "bool", [(r, "x")],
-                          'std::ostringstream a, b; a << make_quantity_point<Kelvins>(x); b << "@(" << +x << " K)"; return a.str() == b.str();',
+                          'for (int st = 0; st < 5; ++st) { std::ostringstream a, b; c18_stream_state(a, st); c18_stream_state(b, st); '
+                          'a << make_quantity_point<Kelvins>(x); b << "@(" << +x << " K)"; if (a.str() != b.str()) return false; } return true;',
                           key=k.key, family="stream_native_replay")
             ks.append(kn)
             self.stream.append((k, r, "K", True, kn.name))
